@@ -17,7 +17,7 @@ bool GoldenSectionSearch::GSSStopCondition::isToleranceReached() const
   callCount_++;
   if (callCount_ <= burnin_)
     return false;
-  return getTolerance() <= tolerance_;
+  return getCurrentTolerance() <= tolerance_;
 }
 
 /******************************************************************************/
